@@ -1,6 +1,58 @@
-(* C14 (growing) *)
-From GF Require Import Base.Bytes Model.Mem Proofs.MemProofs.
-Theorem C14_put_frame : forall s b k body m s' r b' k',
-  put_object s b k body m = (s', r) -> (b', k') <> (b, k) -> get_object s' b' k' = get_object s b' k'.
-Proof. exact get_put_other. Qed.
-Print Assumptions C14_put_frame.
+(* C14 — Multipart bookkeeping listings are exact and page completely.
+   Model: Model/Uploader.v list_parts / parts_from, scan_uploads / take_uploads / next_entry. *)
+From GF Require Import Base.Bytes Base.SortedMap Model.Prefix Model.Mem Model.Handlers Model.Uploader
+  Proofs.UploadListProofs.
+Open Scope Z_scope.
+
+(* ListParts lists exactly the parts currently held, with their true numbers *)
+Theorem C14_parts_membership : forall idx l n p,
+  In (n, p) (parts_from idx l) <-> (idx <= n)%nat /\ nth_error l (n - idx) = Some (Some p).
+Proof. exact parts_from_spec. Qed.
+Print Assumptions C14_parts_membership.
+
+(* ... in ascending part-number order *)
+Theorem C14_parts_ascending : forall idx l a b rest,
+  (exists pre, parts_from idx l = pre ++ a :: b :: rest) -> (fst a < fst b)%nat.
+Proof. exact parts_from_ascending. Qed.
+Print Assumptions C14_parts_ascending.
+
+Theorem C14_parts_exact : forall u b k id mpu limit,
+  get_upload u b k id = Some mpu -> Z.of_nat (length (held_parts mpu)) <= limit ->
+  list_parts u b k id 0 limit = inr {| pr_parts := held_parts mpu; pr_truncated := false; pr_next := 0 |}.
+Proof. exact list_parts_exact. Qed.
+Print Assumptions C14_parts_exact.
+
+(* any numeric marker — also beyond the highest part — is answered without failure *)
+Theorem C14_parts_any_marker : forall u b k id mpu marker limit,
+  get_upload u b k id = Some mpu -> 0 <= marker -> 0 <= limit ->
+  exists r, list_parts u b k id marker limit = inr r /\
+    let rest := filter (fun np => Nat.leb (Z.to_nat marker) (fst np)) (held_parts mpu) in
+    pr_parts r = firstn (Z.to_nat limit) rest /\
+    (pr_truncated r = false -> skipn (Z.to_nat limit) rest = []) /\
+    (pr_truncated r = true -> exists p tl, skipn (Z.to_nat limit) rest = (pr_next r, p) :: tl).
+Proof. exact list_parts_page. Qed.
+Print Assumptions C14_parts_any_marker.
+
+(* following NextPartNumberMarker visits every part exactly once, for every page size >= 1 *)
+Theorem C14_parts_walk_complete : forall u b k id mpu limit,
+  get_upload u b k id = Some mpu -> 1 <= limit ->
+  parts_walk (S (length (held_parts mpu))) u b k id 0 limit = Some (held_parts mpu).
+Proof. exact parts_walk_complete. Qed.
+Print Assumptions C14_parts_walk_complete.
+
+(* ListMultipartUploads (unpaginated): exactly the pending uploads whose key is a Content for the
+   prefix/delimiter, ordered by key then initiation; each common prefix once *)
+Theorem C14_uploads_exact : forall pre delim items limit,
+  Z.of_nat (length (index_entries items)) < limit ->
+  Forall (fun kv => snd kv <> []) items ->
+  let r := scan_uploads pre delim limit items None 0 [] [] in
+  ur_uploads r = index_entries (filter (fun kv => mr_eqb (prefix_match pre delim (fst kv)) MContent) items) /\
+  ur_truncated r = false /\
+  (forall p, In p (ur_prefixes r) <-> exists k ids, In (k, ids) items /\ prefix_match pre delim k = MCommon p) /\
+  NoDup (ur_prefixes r).
+Proof. exact list_uploads_exact. Qed.
+Print Assumptions C14_uploads_exact.
+
+Example C14_ex : parts_from 0 [None; Some {| pt_body := [1]%N; pt_etag := [] |}; None; Some {| pt_body := [2]%N; pt_etag := [] |}]
+               = [(1%nat, {| pt_body := [1]%N; pt_etag := [] |}); (3%nat, {| pt_body := [2]%N; pt_etag := [] |})].
+Proof. reflexivity. Qed.
